@@ -8,11 +8,21 @@ Runtime contract, evaluated on the real `Document` / `HtmlRenderer` of the tree 
 
 for (tree, spelling) pairs of the DOCS generator (runtime/docs.py).  The expected HTML is written
 directly from the tree (runtime/docs_html.py) and never computed with mistletoe.
+
+Three parts: (a) exhaustive small-scope trees, (b) seeded random trees, (c) DIRECTED trees that are
+the same for every seed (see `directed_specs`): every placement of the blank lines in chains of
+2-3 containers with a following block / item (tight versus loose lists), two-item lists over all
+pairs of block kinds, and content the seeded grammar leaves out (inline content over several
+lines, non-ASCII text, empty content, 3-4 items, short / over-long / pipe-less table rows).
 """
 import hashlib
 
+import itertools
+
 from runtime.common import use_repo, pool_map
 from runtime import docs
+from runtime.docs import Node, T
+from runtime.docs_tree import may_omit_blank, forbidden_pair, number
 from runtime.docs_classify import classify, features, CLASSES
 from runtime.docs_shrink import shrink
 
@@ -50,28 +60,362 @@ def nontrivial(tree):
     return docs.tree_depth(tree) >= 2 or len(docs.nodefs(tree)) >= 2
 
 
+# ------------------------------------------------------------------------------------------------
+# directed inputs: blank-line placement x container nesting x following block kind
+#
+# The seeded writer decides the blank lines of a list from its `tight` flag (a loose list gets a
+# blank line between all of its items, a loose one-item list between all of its blocks), so a
+# document in which ONE blank line decides about looseness is never written by parts (a)/(b).
+# The directed trees below fix every gap themselves (attribute `gap` = number of blank lines
+# before a non-first block / item, honoured by docs_write) and the `tight` flag of every list
+# is DERIVED from the gaps with the rule of CommonMark 0.30 section 5.3: "A list is loose if any
+# of its constituent list items are separated by blank lines, or if any of its constituent list
+# items directly contain two block-level elements with a blank line between them."  Blank
+# lines inside a nested list, inside a quote ('>' lines) or inside a fenced code block do not
+# count for the enclosing list; paragraphs inside a quote always keep their <p>.
+
+
+def _p(s):
+    return Node('para', inl=[T(s)])
+
+
+def _table():
+    return Node('table', header=Node('row', cells=[Node('cell', inl=[T('h')])]), aligns=[None],
+                rows=[Node('row', cells=[Node('cell', inl=[T('c')])])])
+
+
+_BLOCKS = {
+    'para': lambda: _p('after'),
+    'para2': lambda: Node('para', inl=[T('one'), Node('soft'), T('two')]),
+    'atx': lambda: Node('atx', level=2, inl=[T('head')]),
+    'setext': lambda: Node('setext', level=1, inl=[T('title')]),
+    'hr': lambda: Node('hr'),
+    'fence': lambda: Node('fence', info='', lines=['x', '', 'y', '']),
+    'icode': lambda: Node('icode', lines=['code']),
+    'quote': lambda: Node('quote', children=[_p('quoted')]),
+    'quote2': lambda: _gapped(Node('quote', children=[_p('quoted'), _p('again')])),
+    'html': lambda: Node('html', text='<!-- c -->'),
+    'div': lambda: Node('html', text=docs.HTML_FORMS[0]),
+    'table': _table,
+    'ul': lambda: Node('list', ordered=False, tight=True, start=None,
+                       items=[Node('item', children=[_p('sub')])]),
+    'ol': lambda: Node('list', ordered=True, tight=True, start=1,
+                       items=[Node('item', children=[_p('sub')])]),
+}
+SPINE_FOLLOW2 = ['atx', 'fence', 'quote', 'hr', 'html', 'para', 'table', 'setext', 'div']
+SPINE_FOLLOW3 = ['atx', 'fence', 'quote', 'hr', 'para']
+PAIR_KINDS = ['para', 'para2', 'atx', 'setext', 'hr', 'fence', 'icode', 'quote', 'quote2', 'html',
+              'div', 'table', 'ul', 'ol']
+
+
+def _gapped(q):
+    """Fix the only possible gap inside a two-paragraph quote."""
+    q.children[1].gap = 1
+    return q
+
+
+def _container(kind, content, second=None, start=1):
+    if kind == 'bq':
+        return Node('quote', children=content)
+    items = [Node('item', children=content)]
+    if second is not None:
+        items.append(Node('item', children=second))
+    return Node('list', ordered=(kind == 'ol'), tight=None, start=(start if kind == 'ol' else None),
+                items=items)
+
+
+def _spine_specs():
+    """(kinds, lead, inner, follow): a chain of 2-3 containers (bullet list, ordered list, quote),
+    each holding [a paragraph if `lead`,] the next container [, a following block / a second
+    item at ONE level: follow = (level, block kind | None, second item?)]; the innermost holds
+    one paragraph ('p'), a two-line paragraph ('p2') or two paragraphs ('pp')."""
+    out = []
+    for n in (2, 3):
+        fkinds = SPINE_FOLLOW2 if n == 2 else SPINE_FOLLOW3
+        for kinds in itertools.product(('ul', 'ol', 'bq'), repeat=n):
+            follows = [None]
+            for lv in range(n):
+                for fk in [None] + fkinds:
+                    for item2 in ((False, True) if kinds[lv] != 'bq' else (False,)):
+                        if fk is None and not item2:
+                            continue
+                        if lv == n - 1 and fk is None:
+                            continue          # two one-paragraph items: part (a) has them
+                        follows.append((lv, fk, item2))
+            for lead in (True, False):
+                for inner in ('p', 'p2', 'pp'):
+                    if inner != 'p' and n == 3 and not lead:
+                        continue
+                    for fo in follows:
+                        out.append(('spine', kinds, lead, inner, fo))
+    return out
+
+
+def _spine_tree(kinds, lead, inner, follow):
+    n = len(kinds)
+    words = ['alpha', 'beta', 'gamma']
+
+    def level(i):
+        if i == n - 1:
+            if inner == 'p2':
+                content = [Node('para', inl=[T(words[i]), Node('soft'), T('more')])]
+            else:
+                content = [_p(words[i])]
+            if inner == 'pp':
+                content.append(_p('second'))
+        else:
+            content = ([_p(words[i])] if lead else []) + [level(i + 1)]
+        second = None
+        if follow is not None and follow[0] == i:
+            if follow[1]:
+                content.append(_BLOCKS[follow[1]]())
+            if follow[2]:
+                second = [_p(words[i])]       # same text as the first item's paragraph
+        return _container(kinds[i], content, second, start=(3 if i == 0 else 1))
+    return [level(0)]
+
+
+def _pair_specs():
+    """(wrap, kind, layout, x, y): a two-item list whose first ('xy-z') or second ('z-xy') item
+    holds the two blocks x, y; at top level, in a quote, or after the paragraph of a bullet item."""
+    out = []
+    for wrap in ('top', 'bq', 'item'):
+        for kind in ('ul', 'ol'):
+            if wrap == 'bq' and kind == 'ol':
+                continue
+            for layout in ('xy-z', 'z-xy'):
+                for x in PAIR_KINDS:
+                    for y in PAIR_KINDS:
+                        if wrap != 'top' and (x in ('ul', 'ol', 'div', 'para2')
+                                              or y in ('div', 'para2', 'setext')):
+                            continue
+                        out.append(('pair', wrap, kind, layout, x, y))
+    return out
+
+
+def _pair_tree(wrap, kind, layout, x, y):
+    bx, by = _BLOCKS[x](), _BLOCKS[y]()
+    if forbidden_pair(bx, by):
+        return None
+    xy, z = [bx, by], [_p('zed')]
+    lst = _container(kind, xy if layout == 'xy-z' else z, z if layout == 'xy-z' else xy, start=2)
+    if wrap == 'bq':
+        return [Node('quote', children=[lst])]
+    if wrap == 'item':
+        return [Node('list', ordered=False, tight=None, start=None,
+                     items=[Node('item', children=[_p('outer'), lst])])]
+    return [lst]
+
+
+def _free_gaps(blocks, acc):
+    """Non-first blocks / items without a fixed gap, with the gaps the specification allows."""
+    for b in blocks:
+        seqs = [b.children] if b.kind == 'quote' else (
+            [it.children for it in b.items] if b.kind == 'list' else [])
+        if b.kind == 'list':
+            for it in b.items[1:]:
+                acc.append((it, (0, 1)))
+        for ch in seqs:
+            for prev, c in zip(ch, ch[1:]):
+                if getattr(c, 'gap', None) is None:
+                    acc.append((c, (0, 1) if may_omit_blank(prev, c) else (1,)))
+            _free_gaps(ch, acc)
+    return acc
+
+
+def derive_tight(blocks):
+    """CommonMark 0.30, 5.3: set `tight` of every list from the gaps of the tree."""
+    for b in blocks:
+        if b.kind == 'quote':
+            derive_tight(b.children)
+        elif b.kind == 'list':
+            loose = False
+            for k, it in enumerate(b.items):
+                loose = loose or (k > 0 and it.gap > 0)
+                loose = loose or any(c.gap > 0 for c in it.children[1:])
+                derive_tight(it.children)
+            b.tight = not loose
+
+
+# -- content families the seeded grammar leaves out (its inline breaks are top-level only, its
+#    text is ASCII words, its table rows always have one cell per column, its headings have text)
+
+def _row(*texts, **kw):
+    return Node('row', cells=[Node('cell', inl=([T(t)] if t else [])) for t in texts], **kw)
+
+
+def _tab(header, rows, aligns=None):
+    return Node('table', header=_row(*header), rows=rows, aligns=aligns or [None] * len(header))
+
+
+def _br(*words, kind='soft'):
+    out = []
+    for w in words:
+        out += [T(w), Node(kind)]
+    return out[:-1]
+
+
+_MISC = {
+    # inline content that runs over several lines of the paragraph (6.x: the content of
+    # emphasis, link text, code spans and raw HTML may contain line endings; not a title, which
+    # would keep the indentation of its continuation line)
+    'ml-em': lambda: [Node('para', inl=[Node('em', children=_br('foo', 'bar'), glued=False)])],
+    'ml-em3': lambda: [Node('para', inl=[T('x '), Node('em', children=_br('a', 'b', 'c'),
+                                                         glued=False), T(' y')])],
+    'ml-strong-hard': lambda: [Node('para', inl=[T('x '), Node(
+        'strong', children=_br('foo', 'bar', kind='hard'), glued=False), T(' y')])],
+    'ml-del': lambda: [Node('para', inl=[Node('del', children=_br('foo', 'bar'))])],
+    'ml-link': lambda: [Node('para', inl=[Node('link', children=_br('foo', 'bar'), dest='/url',
+                                               title='the title')])],
+    'ml-reflink': lambda: [Node('para', inl=[Node('reflink', children=_br('foo', 'bar'),
+                                                  label='ref', form='full')]),
+                           Node('linkdef', label='ref', dest='/url', title='')],
+    'ml-code': lambda: [Node('para', inl=[T('x '), Node('code', s='a\nb'), T(' y')])],
+    'ml-rawhtml': lambda: [Node('para', inl=[T('x '), Node('rawhtml', s='<b\nclass="x">'),
+                                             T(' y')])],
+    'ml-em-then-atx': lambda: [Node('para', inl=[Node('em', children=_br('foo', 'bar'),
+                                                      glued=False)]), _BLOCKS['atx']()],
+    'ml-em-then-list': lambda: [Node('para', inl=[Node('em', children=_br('foo', 'bar'),
+                                                       glued=False)]), _BLOCKS['ul']()],
+    # non-ASCII and astral text
+    'uni-para': lambda: [Node('para', inl=[T('caf\u00e9 \U0001F600'), Node('soft'),
+                                           T('\U0001D4B3 \u00df \u4e2d\u6587')])],
+    'uni-atx': lambda: [Node('atx', level=3, inl=[T('\U0001D4B3 \u00df')]), _p('\u00e9')],
+    'uni-setext': lambda: [Node('setext', level=1, inl=[T('\u00e9\u00e8 \U0001F600')])],
+    'uni-code': lambda: [Node('fence', info='\u00fc', lines=['\U0001F600', '', ' \u00e9']),
+                         Node('para', inl=[Node('code', s='\u00e9'), T(' '),
+                                           Node('em', children=[T('\u4e2d')], glued=False)])],
+    'uni-table': lambda: [_tab(['\u00e9', '\U0001F600'], [_row('\u00fc', '\U0001D4B3\u00df')],
+                               [None, 'center'])],
+    # empty content
+    'empty-atx': lambda: [Node('atx', level=1, inl=[]), _p('after')],
+    'empty-atx-atx': lambda: [_p('before'), Node('atx', level=2, inl=[]),
+                              Node('atx', level=3, inl=[])],
+    'empty-fence': lambda: [Node('fence', info='', lines=[]), Node('fence', info='py', lines=[''])],
+    'empty-link': lambda: [Node('para', inl=[T('x '), Node('link', children=[], dest='/url',
+                                                           title=''), T(' y')])],
+    'empty-item-mid': lambda: [Node('list', ordered=False, tight=None, start=None, items=[
+        Node('item', children=[_p('one')]), Node('item', children=[]),
+        Node('item', children=[_p('three')])])],
+    # three and four items, every placement of the blank lines between them
+    'items3': lambda: [Node('list', ordered=False, tight=None, start=None, items=[
+        Node('item', children=[_p(w)]) for w in ('one', 'two', 'one')])],
+    'items4-ol': lambda: [Node('list', ordered=True, tight=None, start=9, items=[
+        Node('item', children=[_p(w)]) for w in ('one', 'two', 'three', 'four')])],
+    'items3-nested': lambda: [Node('list', ordered=False, tight=None, start=None, items=[
+        Node('item', children=[_p('one'), Node('list', ordered=True, tight=None, start=1, items=[
+            Node('item', children=[_p('sub')]), Node('item', children=[_p('sub')])])]),
+        Node('item', children=[_p('two')]), Node('item', children=[_BLOCKS['fence']()])])],
+    'empty-quote-para': lambda: [Node('quote', children=[]), _p('after')],
+    # table rows that are shorter / longer than the header (GFM: "If a number of cells fewer
+    # than the number of cells in the header row, empty cells are inserted. If greater, the
+    # excess is ignored"), identical sibling rows
+    'row-short': lambda: [_tab(['a', 'b'], [_row('c', '', short=1), _row('d', 'e')])],
+    'row-short3': lambda: [_tab(['a', 'b', 'c'], [_row('d', '', '', short=2),
+                                                  _row('e', 'f', '', short=1),
+                                                  _row('g', '', '', short=1)],
+                                [None, 'right', 'center'])],
+    'row-dup': lambda: [_tab(['a', 'b'], [_row('c', 'd'), _row('c', 'd'), _row('a', 'b')])],
+    'row-long': lambda: [_tab(['a', 'b'], [_row('c', 'd', extra=['e'])])],
+    'row-long1': lambda: [_tab(['a'], [_row('b', extra=['c', 'd']), _row('e')])],
+    'row-bare': lambda: [_tab(['a', 'b', 'c'], [_row('d', '', 'e', bare=True),
+                                                _row('', 'f', 'g', bare=True)])],
+    'row-bare-last': lambda: [_tab(['a', 'b'], [_row('c', '', bare=True), _row('d', 'e')])],
+    'row-nopipe': lambda: [_tab(['a', 'b'], [_row('c', 'd'), _row('bar', '', short=1,
+                                                                  nopipe=True)]), _p('after')],
+}
+MISC_CTX = ['top', 'bq', 'ul', 'ol', 'ul>bq', 'bq>ul', 'ul>ul', 'bq>bq']
+# the row spellings that fail on the pinned tree: a handful of inputs is enough
+MISC_CTX_FEW = {'row-long': ['top', 'ul'], 'row-long1': ['bq'], 'row-nopipe': ['top', 'bq'],
+                'row-bare': ['top', 'ul>bq']}
+DIRECTED_FINDINGS = {'table-row-excess-cells-rendered', 'table-row-without-pipe-ends-table',
+                     'table-empty-cell-without-padding-dropped'}
+
+
+def _misc_tree(name, ctx):
+    blocks = _MISC[name]()
+    if name.startswith('ml-') and ctx == 'bq>ul':
+        return None     # long paragraphs in a list in a quote: a recorded deviation's ground
+    defs = [b for b in blocks if b.kind == 'linkdef']      # definitions stay at top level
+    blocks = [b for b in blocks if b.kind != 'linkdef']
+    if ctx != 'top':
+        for kind in reversed(ctx.split('>')):
+            blocks = [_container(kind, blocks, start=1)]
+    return blocks + defs
+
+
+def directed_specs():
+    return (_spine_specs() + _pair_specs()
+            + [('misc', name, ctx) for name in _MISC for ctx in MISC_CTX_FEW.get(name, MISC_CTX)])
+
+
+_BUILD = {'spine': _spine_tree, 'pair': _pair_tree, 'misc': _misc_tree}
+
+
+def directed_trees(spec):
+    """All gap assignments of one directed spec: yields (name, tree); trees that hold a trigger
+    of a recorded deviation (docs_classify.features) are left to parts (a)/(b)."""
+    tree = _BUILD[spec[0]](*spec[1:])
+    if tree is None or features(tree) - DIRECTED_FINDINGS:
+        return
+    number(tree)
+    free = _free_gaps(tree, [])
+    for vec in itertools.product(*[opts for _, opts in free]):
+        variants = [vec]
+        if sum(vec) == 1 and spec[0] == 'spine':
+            variants.append(tuple(2 * v for v in vec))     # the one blank line doubled
+        for v in variants:
+            for (node, _), g in zip(free, v):
+                node.gap = g
+            derive_tight(tree)
+            assert docs.valid_tree(tree), (spec, v)
+            yield '%r%r' % (spec, v), tree
+
+
+DIRECTED_BIASES = [None, {'lazy': 0.9, 'indent': 0.7}, {'blank_start': 1.0}]
+
+
 def _trees(unit):
     kind = unit[0]
+    if kind == 'dir':
+        _, k, n = unit
+        for i, spec in enumerate(directed_specs()):
+            if i % n == k:
+                # three-container chains are many: one seed-independent spelling less
+                nfixed = 2 if (spec[0] == 'spine' and len(spec[1]) == 3) else len(DIRECTED_BIASES)
+                for name, t in directed_trees(spec):
+                    yield name, t, 0, nfixed
+        return
     if kind == 'enum':
         _, mb, md, k, n = unit
         for i, t in enumerate(docs.enumerate_trees(mb, md)):
             if i % n == k:
-                yield ('e%d' % i), t, SPELLINGS_ENUM
+                yield ('e%d' % i), t, SPELLINGS_ENUM, 0
     else:
         _, mb, md, seed, start, count = unit
         for i, t in enumerate(docs.gen_trees(mb, md, seed, count, start=start), start):
-            yield ('r%d' % i), t, SPELLINGS_RAND
+            yield ('r%d' % i), t, SPELLINGS_RAND, 0
 
 
 def _work(arg):
     unit, seed, do_shrink = arg
     use_repo()
     res = {'evaluations': 0, 'contract_evaluations': 0, 'failures': [], 'samples': [],
-           'hashes': set(), 'by_class': {}, 'failures_total': 0, 'unclassified': []}
-    for name, tree, nsp in _trees(unit):
+           'hashes': set(), 'by_class': {}, 'failures_total': 0, 'unclassified': [],
+           'directed': {}}
+    directed = unit[0] == 'dir'
+    for name, tree, nsp, nfixed in _trees(unit):
+        if directed:
+            fam = name[2:name.index("'", 2)]
+            res['directed'][fam] = res['directed'].get(fam, 0) + 1
         exp = expected(tree)
         nt = nontrivial(tree)
         sps = [docs.canonical_spelling(tree)] + list(docs.spellings(tree, '%d|%s' % (seed, name), nsp))
+        if directed:
+            # two or three spellings that do not depend on the run's seed, one that does
+            sps += [docs.Spelling(seed='dir|%s|%d' % (name, j), bias=b)
+                    for j, b in enumerate(DIRECTED_BIASES[:nfixed])]
+            sps.append(docs.Spelling(seed='%d|%s' % (seed, name)))
         seen_here = set()
         for sp in sps:
             w = docs.write(tree, sp)
@@ -96,7 +440,9 @@ def _work(arg):
                      'replay': 'from mistletoe import Document, HtmlRenderer; '
                                'print(HtmlRenderer().render(Document(%r)))' % w.text}
             cls = classify(tree)
-            if do_shrink or cls == 'unclassified':
+            if directed:
+                pass        # small by construction; the shrinker does not know about fixed gaps
+            elif do_shrink or cls == 'unclassified':
                 try:
                     f0 = features(tree)
                     t2, sp2, w2 = shrink(tree, sp, _fails, budget=300,
@@ -135,10 +481,12 @@ def run(tier, seed, workers):
     per = max(1, rand[2] // (workers * 8))
     for start in range(0, rand[2], per):
         units.append(('rand', rand[0], rand[1], seed, start, min(per, rand[2] - start)))
+    units += [('dir', k, 2 * nchunks) for k in range(2 * nchunks)]
     parts = pool_map(_work, [(u, seed, do_shrink) for u in units], workers)
     out = {'evaluations': 0, 'contract_evaluations': 0, 'failures': [], 'samples': []}
     hashes = set()
     by_class = {}
+    directed = {}
     total = 0
     unclassified = []
     for p in parts:
@@ -147,6 +495,8 @@ def run(tier, seed, workers):
         out['contract_evaluations'] += p['contract_evaluations']
         out['failures'].extend(p['failures'])
         hashes |= p['hashes']
+        for k, v in p['directed'].items():
+            directed[k] = directed.get(k, 0) + v
         total += p['failures_total']
         for k, v in p['by_class'].items():
             by_class[k] = by_class.get(k, 0) + v
@@ -176,12 +526,32 @@ def run(tier, seed, workers):
         'DOCS: (a) exhaustive small scope: all valid trees with <= %d blocks, nesting <= %d over the '
         'reduced leaf vocabulary of docs_tree._leaf_variants, each in the canonical spelling + %d '
         'seeded spellings; (b) %d seeded random trees (seed %d) with <= %d blocks, nesting <= %d, '
-        'full block/inline vocabulary, each in the canonical spelling + %d seeded spellings'
-        % (enum[0], enum[1], SPELLINGS_ENUM, rand[2], seed, rand[0], rand[1], SPELLINGS_RAND))
+        'full block/inline vocabulary, each in the canonical spelling + %d seeded spellings; '
+        '(c) %d directed trees, the same for every seed, with every gap (number of blank lines '
+        'between sibling blocks / items) fixed and the tight flag of every list derived from the '
+        'gaps by CommonMark 5.3: %d "spine" trees = chains of 2-3 containers out of {bullet list, '
+        'ordered list, quote}, with / without a leading paragraph per level, innermost content one '
+        'paragraph / a two-line paragraph / two paragraphs, and at one level a following block '
+        '(ATX, fence, quote, thematic break, HTML, paragraph, table, setext; 3 levels: the first 5) '
+        'and/or a second item, x all gap vectors in {0,1} the grammar allows (a single blank line '
+        'also doubled); %d "pair" trees = two-item bullet/ordered lists (top level, in a quote, '
+        'after the paragraph of an item) whose first or second item holds two blocks x, y over %d '
+        'block kinds, x all gap vectors; %d "misc" trees = %d documents (inline content over '
+        'several lines, non-ASCII/astral text, empty heading/fence/link/item/quote, 3-4 items, '
+        'identical rows, short / over-long / pipe-less rows, unpadded empty cells) in up to %d '
+        'container contexts x gap vectors; each in the canonical spelling + 2-3 fixed seeded '
+        'spellings (plain; lazy/indent biased; items starting with a blank line) + 1 spelling of '
+        'the run seed. Trees holding a trigger of a recorded deviation are left out of (c), except '
+        'the three table-row findings of (c) itself'
+        % (enum[0], enum[1], SPELLINGS_ENUM, rand[2], seed, rand[0], rand[1], SPELLINGS_RAND,
+           sum(directed.values()), directed.get('spine', 0), directed.get('pair', 0),
+           len(PAIR_KINDS), directed.get('misc', 0), len(_MISC), len(MISC_CTX)))
+    out['directed_trees'] = directed
     out['rule'] = (
         'tree -> write(tree, spelling) -> HtmlRenderer().render(Document(text)), compared after '
         'normalize_html with serialise_html(tree) (oracle written from the tree, CommonMark 0.30 + '
         'GFM tables/strikethrough). Non-trivial: the tree nests (quote/list) or has >= 2 blocks; '
         'distinct = distinct written texts. Part (a) is exhaustive over trees, sampled over '
-        'spellings; part (b) is sampled.')
+        'spellings; part (b) is sampled; part (c) is exhaustive over the stated gap vectors, '
+        'sampled over the other spelling choices.')
     return out
